@@ -44,7 +44,7 @@ def operand_slots(t):
         "in-term": lambda x: T.ContainsCriterion(x, T.Tuple(1, 2)), "in-element": lambda x: T.ContainsCriterion(a, T.Tuple(x, 2)),
         "between-term": lambda x: T.BetweenCriterion(x, T.ValueWrapper(1), T.ValueWrapper(2)), "between-start": lambda x: T.BetweenCriterion(a, x, T.ValueWrapper(2)),
         "between-end": lambda x: T.BetweenCriterion(a, T.ValueWrapper(1), x),
-        "bitand-term": lambda x: T.BitwiseAndCriterion(x, 4),
+        "bitand-term": lambda x: T.BitwiseAndCriterion(x, T.ValueWrapper(4)),
         "function-arg": lambda x: fn.Coalesce(x, 0), "function-arg2": lambda x: fn.Concat(a, x),
         "case-when": lambda x: P.Case().when(T.BasicCriterion(P.enums.Equality.eq, x, T.ValueWrapper(1)), a).else_(b), "case-then": lambda x: P.Case().when(a == 1, x).else_(b), "case-else": lambda x: P.Case().when(a == 1, b).else_(x),
         "tuple-element": lambda x: T.Tuple(a, x), "array-element": lambda x: T.Array(a, x), "bracket": lambda x: T.Bracket(x),
